@@ -60,8 +60,29 @@ import (
 	"verif/simcore"
 )
 
+// A forced collection is requested from a goroutine outside every bubble (runtime.GC called
+// from inside a bubble has been seen to hang in "wait for GC cycle"). The channels are created
+// outside the bubbles, so blocking on them is not "durable": the fake clock stands still.
+var (
+	gcReq  = make(chan struct{})
+	gcResp = make(chan struct{})
+)
+
+func gcServer() {
+	for range gcReq {
+		runtime.GC()
+		gcResp <- struct{}{}
+	}
+}
+
+func collect() {
+	gcReq <- struct{}{}
+	<-gcResp
+}
+
 func TestMain(m *testing.M) {
 	simcore.InitProcess()
+	go gcServer()
 	profStart()
 	if os.Getenv("GOMAXPROCS") == "" {
 		// one bubble runs at a time and at most one chain of goroutines is runnable in it:
@@ -523,7 +544,7 @@ func newSim(env *simcore.Env, c simcore.Op) simcore.Sim {
 	time.Sleep(37 * time.Microsecond)
 	env.Settle()
 	s.honest = s.join(0, false, false, false, nil)
-	runtime.GC()
+	collect()
 	runtime.ReadMemStats(&s.memBase)
 	return s
 }
